@@ -74,7 +74,7 @@ def run(ck):
     for p in ref_push:
         def is_erase(n):
             return ub.nodes[n].get('callee', '').endswith('::erase') and \
-                any(ub.nodes[j].get('callee') == 'std::find_if' for j in value_sources(ub, ub.call_args(n)[0]))
+                any(ub.nodes[j].get('callee') == 'std::find_if' for j in origin_chain(ub, ub.call_args(n)[0]))
         mp = must_precede(ub, [p], is_erase)
         arg = ub.call_args(p)[0]
         srcs = value_sources(ub, arg)
